@@ -6,6 +6,7 @@ import (
 	"fmt"
 	"math"
 	"math/rand"
+	"reflect"
 
 	dproto "github.com/cloudwego/dynamicgo/proto"
 	dbin "github.com/cloudwego/dynamicgo/proto/binary"
@@ -246,6 +247,38 @@ func goValueOf(fd protoreflect.FieldDescriptor, v protoreflect.Value, byName boo
 	return goScalar(fd, v)
 }
 
+// goIntKeyMaps: hand integer-keyed maps to the writer in its map[int]interface{} form (the third accepted Go
+// shape next to map[string]interface{} and map[interface{}]interface{}), whenever every key fits into an int
+var goIntKeyMaps bool
+
+func intKeyed(fd protoreflect.FieldDescriptor, v protoreflect.Value) (map[int]interface{}, bool) {
+	switch fd.MapKey().Kind() {
+	case protoreflect.BoolKind, protoreflect.StringKind:
+		return nil, false
+	}
+	ok := true
+	mm := map[int]interface{}{}
+	v.Map().Range(func(k protoreflect.MapKey, mv protoreflect.Value) bool {
+		switch x := k.Interface().(type) {
+		case int32:
+			mm[int(x)] = nil
+		case int64:
+			mm[int(x)] = nil
+		case uint32:
+			mm[int(x)] = nil
+		case uint64:
+			if x > math.MaxInt64 {
+				ok = false
+			}
+			mm[int(x)] = nil
+		default:
+			ok = false
+		}
+		return ok
+	})
+	return mm, ok
+}
+
 func goMessage(m protoreflect.Message, byName bool) interface{} {
 	byN := map[string]interface{}{}
 	byI := map[dproto.FieldNumber]interface{}{}
@@ -260,6 +293,18 @@ func goMessage(m protoreflect.Message, byName bool) interface{} {
 					return true
 				})
 				x = mm
+			} else if _, ok := intKeyed(fd, v); ok && goIntKeyMaps {
+				im := map[int]interface{}{}
+				v.Map().Range(func(k protoreflect.MapKey, mv protoreflect.Value) bool {
+					ki := reflect.ValueOf(goScalar(fd.MapKey(), k.Value())) // same Go shape as the other forms (fixed32/64: signed, same bits)
+					if ki.CanInt() {
+						im[int(ki.Int())] = goValueOf(fd.MapValue(), mv, byName)
+					} else {
+						im[int(ki.Uint())] = goValueOf(fd.MapValue(), mv, byName)
+					}
+					return true
+				})
+				x = im
 			} else {
 				mm := map[interface{}]interface{}{}
 				v.Map().Range(func(k protoreflect.MapKey, mv protoreflect.Value) bool {
@@ -330,12 +375,46 @@ func (c *c20) capSweep(env *pbEnv, m protoreflect.Message) {
 	}
 }
 
+func hasIntKeyedMap(m protoreflect.Message) bool {
+	found := false
+	m.Range(func(fd protoreflect.FieldDescriptor, v protoreflect.Value) bool {
+		switch {
+		case fd.IsMap():
+			if _, ok := intKeyed(fd, v); ok {
+				found = true
+			} else if fd.MapValue().Kind() == protoreflect.MessageKind {
+				v.Map().Range(func(_ protoreflect.MapKey, mv protoreflect.Value) bool {
+					found = found || hasIntKeyedMap(mv.Message())
+					return !found
+				})
+			}
+		case fd.IsList() && fd.Kind() == protoreflect.MessageKind:
+			for i := 0; i < v.List().Len() && !found; i++ {
+				found = hasIntKeyedMap(v.List().Get(i).Message())
+			}
+		case fd.Kind() == protoreflect.MessageKind:
+			found = hasIntKeyedMap(v.Message())
+		}
+		return !found
+	})
+	return found
+}
+
 func (c *c20) msg(env *pbEnv, m protoreflect.Message) {
-	for _, byName := range []bool{true, false} {
+	defer func() { goIntKeyMaps = false }()
+	for _, form := range []struct{ byName, intKeys bool }{{true, false}, {false, false}, {true, true}, {false, true}} {
+		byName := form.byName
 		api := "ByNumber"
 		if byName {
 			api = "ByName"
 		}
+		if form.intKeys {
+			if !hasIntKeyedMap(m) {
+				continue
+			}
+			api += "+intkeys"
+		}
+		goIntKeyMaps = form.intKeys
 		ev := map[string]interface{}{"ev": "PMsg", "api": api, "ref": dumpMsg(m), "wst": "skipped", "wdump": pNone(), "rst": "skipped",
 			"g1": dumpIface(nil), "g2": dumpIface(nil), "proto": env.text}
 		func() {
@@ -504,7 +583,7 @@ func (c *c20) run(seed int64, n int, maxLen int) {
 		i := i
 		step(func() {
 			rr := rand.New(rand.NewSource(seed*1000003 + int64(i)))
-			env, err := newPbEnv(randSchema(rr))
+			env, err := newPbEnv(randSchemaK(rr, pAllKeyKinds))
 			if err != nil {
 				die("schema printed by the harness was rejected: %v", err)
 			}
